@@ -278,6 +278,37 @@ theorem no_update_loop_after_create (c : Cfg) (t body : JVal) (ov : List (String
   subst hr
   exact no_mutation_at_target c t body _ h.wf hla hm ho
 
+/-! ## where ownership applies: one decision for the create site and the compare site
+
+  `shouldOwnOf own ownerNs ns` is what both `_create_api_resource` (write the parent's reference into the
+  create body) and `reconcile_krm_resource` (`should_own`: require it on the live object) evaluate.  It holds
+  exactly when the function owns its resource and parent and object share their scope — in particular for
+  a cluster-scoped object of a cluster-scoped parent (`none`, `none`).  The create theorems take the
+  references written at create (`refs`) and `Cfg.shouldOwn` from this one value; a create site that
+  decides otherwise falsifies `ho` of `no_update_loop_after_create`. -/
+
+theorem should_own_same_scope (ns : Option String) : shouldOwnOf true ns ns = true := by
+  simp [shouldOwnOf]
+
+theorem should_own_iff (own : Bool) (ownerNs ns : Option String) :
+    shouldOwnOf own ownerNs ns = true ↔ own = true ∧ ownerNs = ns := by
+  simp [shouldOwnOf]
+
+/-- where ownership does not apply nothing about owner references is ever asked of the live object -/
+theorem not_owned_no_owner_fix (c : Cfg) (live : JVal) (own : Bool) (ownerNs ns : Option String)
+    (hs : c.shouldOwn = shouldOwnOf own ownerNs ns) (hne : own = false ∨ ownerNs ≠ ns) :
+    ownerFixOf c live = some .none := by
+  have : c.shouldOwn = false := by
+    rw [hs]
+    cases hne with
+    | inl h => simp [shouldOwnOf, h]
+    | inr h => simp [shouldOwnOf, h]
+  simp [ownerFixOf, this]
+
+example : shouldOwnOf true none none = true := by decide
+example : shouldOwnOf true (some "ns1") none = false := by decide
+example : shouldOwnOf true none (some "ns1") = false := by decide
+
 /-! ## the forced kind/name overlay never brings an explicit null into the target
 
   `NoNulls` is the stated domain of the fixpoint clauses because a null member can never be met: the
